@@ -145,6 +145,10 @@ void pbt_run(const Case& cs, Ctx& ctx) {
     return Name{"nodir/x", false};
   };
   auto full = [&](const Name& n) { return root + "/" + n.rel; };
+  // the same path in another spelling (the library is given strings; two strings may name one file)
+  auto spelled = [&](const Name& n, unsigned long code) -> std::string {
+    switch (code % 5) { case 1: return root + "/./" + n.rel; case 2: return root + "//" + n.rel; case 3: return root + "/../scratch/" + n.rel; default: return root + "/" + n.rel; }
+  };
   auto lookup = [&](const Name& n) -> NodeP { if (!n.flat) return NodeP(); auto it = fs.find(n.rel); return it == fs.end() ? NodeP() : it->second; };
 
   auto verify = [&](const std::string& opname) {
@@ -334,7 +338,8 @@ void pbt_run(const Case& cs, Ctx& ctx) {
       if (fault && tn) for (int i = 0; i < NH; ++i) if (h[i].node == tn) fault = false;   // (what an open handle on the destination sees then is not specified)
       struct rlimit oldLim; getrlimit(RLIMIT_FSIZE, &oldLim);
       if (fault) { struct rlimit lim = oldLim; lim.rlim_cur = (rlim_t)((faultArg - 1) % (long)sn->bytes.size()); signal(SIGXFSZ, SIG_IGN); setrlimit(RLIMIT_FSIZE, &lim); }
-      bool got = File::copy(L(full(s)), L(full(t)), fie);
+      unsigned long sp = (unsigned long)idx * 2654435761ul >> 7;
+      bool got = File::copy(L(spelled(s, sp)), L(spelled(t, sp / 5)), fie);
       if (fault) {
         setrlimit(RLIMIT_FSIZE, &oldLim);
         ctx.label(tn ? "copy_fault_short_transfer_over_existing" : "copy_fault_short_transfer");
@@ -383,7 +388,9 @@ void pbt_run(const Case& cs, Ctx& ctx) {
       std::string what = "rename('" + s.rel + "', '" + t.rel + "', failIfExists=" + (fie ? "true" : "false") + ")";
       // known: with failIfExists the placeholder created at the destination stays when the rename itself fails
       if (fie && t.flat && !tn && (!sn || sn->dir) && ctx.excluded("C19-rename-placeholder")) continue;
-      bool got = File::rename(L(full(s)), L(full(t)), fie);
+      unsigned long sp = (unsigned long)idx * 2654435761ul >> 7;
+      if (sp % 5 || (sp / 5) % 5) ctx.label(s.rel == t.rel ? "rename_same_file_other_spelling" : "path_spelling_varied");
+      bool got = File::rename(L(spelled(s, sp)), L(spelled(t, sp / 5)), fie);
       if (!sn) expectBool("rename", got, false, what + " with a missing source");
       else if (!t.flat) expectBool("rename", got, false, what + " to a place below a missing directory / a regular file");
       else if (fie && tn) { expectBool("rename", got, false, what + " with an existing destination"); ctx.label("rename_refused_existing"); }
